@@ -611,7 +611,13 @@ fn get_zone_offset(zone_name: &str, date: (i32, u32, u32), time: (u32, u32, u32,
     // try parse the time zone specified as text
     if let Ok(tz) = zone_name.parse::<chrono_tz::Tz>() {
       // build date and time in parsed time zone
-      let zdt = tz.ymd(date.0, date.1, date.2).and_hms_nano(time.0, time.1, time.2, time.3);
+      let zdt = match tz.ymd_opt(date.0, date.1, date.2).and_hms_nano_opt(time.0, time.1, time.2, time.3) {
+        LocalResult::Single(zdt) => zdt,
+        // when clocks are set back the local time exists twice: the earlier instant is taken
+        LocalResult::Ambiguous(earliest, _) => earliest,
+        // when clocks are set forward the skipped local times do not exist in this zone
+        LocalResult::None => return None,
+      };
       // calculate the time offset, the result is a chrono::Duration
       let offset: chrono::Duration = utc.with_timezone(&tz) - zdt;
       // return seconds
